@@ -6,6 +6,8 @@ import (
 	"math"
 	"reflect"
 	"strings"
+	"sync"
+	"sync/atomic"
 	"unicode/utf16"
 	"unicode/utf8"
 
@@ -21,20 +23,27 @@ import (
 // saves CPU and memory.
 // Currently, importedString is created in 2 cases: Runtime.ToValue() for strings longer than 16 bytes and as a result
 // of JSON.stringify() if it may contain unicode characters. More cases could be added in the future.
+//
+// A string value may be shared between Runtimes running on different goroutines, so the lazily filled
+// part (u) is written exactly once, under scanOnce, and published through the atomic flag: whoever sees
+// scanned set may read u.
 type importedString struct {
 	s string
 	u unicodeString
 
-	scanned bool
+	scanOnce sync.Once
+	scanned  atomic.Bool
 }
 
 func (i *importedString) scan() {
-	i.u = unistring.Scan(i.s)
-	i.scanned = true
+	i.scanOnce.Do(func() {
+		i.u = unistring.Scan(i.s)
+		i.scanned.Store(true)
+	})
 }
 
 func (i *importedString) ensureScanned() {
-	if !i.scanned {
+	if !i.scanned.Load() {
 		i.scan()
 	}
 }
@@ -165,9 +174,9 @@ func (i *importedString) Length() int {
 }
 
 func (i *importedString) Concat(v String) String {
-	if !i.scanned {
+	if !i.scanned.Load() {
 		if v, ok := v.(*importedString); ok {
-			if !v.scanned {
+			if !v.scanned.Load() {
 				return &importedString{s: i.s + v.s}
 			}
 		}
@@ -196,7 +205,7 @@ func (i *importedString) CompareTo(v String) int {
 }
 
 func (i *importedString) Reader() io.RuneReader {
-	if i.scanned {
+	if i.scanned.Load() {
 		if i.u != nil {
 			return i.u.Reader()
 		}
@@ -242,7 +251,7 @@ func (s *stringUtf16Reader) ReadRune() (r rune, size int, err error) {
 }
 
 func (i *importedString) utf16Reader() utf16Reader {
-	if i.scanned {
+	if i.scanned.Load() {
 		if i.u != nil {
 			return i.u.utf16Reader()
 		}
@@ -254,7 +263,7 @@ func (i *importedString) utf16Reader() utf16Reader {
 }
 
 func (i *importedString) utf16RuneReader() io.RuneReader {
-	if i.scanned {
+	if i.scanned.Load() {
 		if i.u != nil {
 			return i.u.utf16RuneReader()
 		}
